@@ -141,7 +141,7 @@ class C07(Check):
     chunksize = 8
 
     def bound_text(self, tier):
-        return "blocks of <=2 statements" if tier == "quick" else "blocks of <=3 statements, 5 preference sets"
+        return "blocks of <=2 statements, 2 preference sets" if tier == "quick" else "blocks of <=2 statements x 5 preference sets; blocks of 3 over the first 16 forms x default preferences"
 
     def cases(self, tier):
         out = []
@@ -154,6 +154,8 @@ class C07(Check):
                 for stmts in itertools.permutations(forms, k):
                     if k >= 2 and not partners_ok(stmts):
                         continue
+                    if k == 3 and any(i >= 16 for i in stmts):
+                        continue    # blocks of three: the first 16 forms only
                     if where != "root" and not any(FORMS[i][2] == where for i in stmts):
                         continue
                     if k == 3 and stmts[0] > stmts[1]:
@@ -169,7 +171,7 @@ class C07(Check):
                     for usages in ulists:
                         for header in (0, 1) if k < 2 else (0,):
                             out.append({"where": where, "stmts": list(stmts), "usages": list(usages), "header": header,
-                                        "nprefs": 2 if tier == "quick" else 5})
+                                        "nprefs": 2 if tier == "quick" else (5 if k < 3 else 1)})
         return out
 
     def setup_worker(self):
@@ -231,11 +233,14 @@ class C07(Check):
         srcmods = {FORMS[i][0].split()[1] for i in case["stmts"]}
         if {"from xmb import *", "from xmb import A1"} <= {FORMS[i][0] for i in case["stmts"]}:
             feats0.append("star-import-next-to-an-explicit-import-of-a-name-hidden-by-__all__")
-        if len(bound) == 2 and bound[0][1] & bound[1][1] and len(srcmods) == 2:
-            label = "same-name-bound-twice:%s-then-%s" % (bound[0][0], bound[1][0])
-            if "from xmb import A1" not in [FORMS[i][0] for i in case["stmts"]]:
-                label += "/sorting-swaps-them"     # xma sorts before xmaa: the tidied block has the other order
-            feats0.append(label)
+        ordered = sorted(case["stmts"], key=lambda i: 0 if "__future__" in FORMS[i][0] else 1)
+        for x in range(len(bound)):
+            for y in range(x + 1, len(bound)):
+                if bound[x][1] & bound[y][1] and FORMS[ordered[x]][0].split()[1] != FORMS[ordered[y]][0].split()[1]:
+                    label = "same-name-bound-twice:%s-then-%s" % (bound[x][0], bound[y][0])
+                    if "from xmb import A1" not in (FORMS[ordered[x]][0], FORMS[ordered[y]][0]):
+                        label += "/sorting-swaps-them"     # xma sorts before xmaa: the tidied block has the other order
+                    feats0.append(label)
         mods = [FORMS[i][0].split()[1].lstrip(".") for i in case["stmts"]]
         if len(set(mods)) < len(mods):
             feats0.append("same-module-twice")
